@@ -46,6 +46,16 @@ KNOWN_PAIRS = [
     ('C09-class-field-in-list-or-set', ['Use'], 'CLS ::= CLASS { &id INTEGER UNIQUE, &Fixed BOOLEAN }\nUse ::= SEQUENCE { l SEQUENCE OF CLS.&id }',
      'Use ::= SEQUENCE { l SEQUENCE OF INTEGER }'),
     ('C09-class-field-in-list-or-set', ['Use'], 'CLS ::= CLASS { &id INTEGER UNIQUE, &Fixed BOOLEAN }\nUse ::= SET { id CLS.&id }', 'Use ::= SET { id INTEGER }'),
+    ('C09-value-parameter-in-default', ['I8'], 'P5 {INTEGER:dflt} ::= SEQUENCE { k INTEGER DEFAULT dflt }\nI8 ::= P5 {42}', 'I8 ::= SEQUENCE { k INTEGER DEFAULT 42 }'),
+    ('C09-tag-on-template-lost', ['I9', 'I10', 'I11'],
+     'Zed ::= BOOLEAN\nP15 {T} ::= [APPLICATION 5] SEQUENCE { a T }\nI9 ::= P15 {Zed}\nP16 {T} ::= [3] CHOICE { a T, b NULL }\nI10 ::= P16 {Zed}\nP17 {T} ::= [PRIVATE 2] SEQUENCE OF T\nI11 ::= P17 {Zed}',
+     'Zed ::= BOOLEAN\nI9 ::= [APPLICATION 5] SEQUENCE { a Zed }\nI10 ::= [3] CHOICE { a Zed, b NULL }\nI11 ::= [PRIVATE 2] SEQUENCE OF Zed'),
+    ('C09-constraint-on-class-field-dropped', ['C5', 'C6'],
+     'MY-CLASS ::= CLASS { &id INTEGER (0..255) UNIQUE, &name IA5String (SIZE(1..64)) }\nC5 ::= MY-CLASS.&id (0..7)\nC6 ::= SEQUENCE { a MY-CLASS.&id (0..7), n MY-CLASS.&name (SIZE(1..8)) }',
+     'C5 ::= INTEGER (0..255) (0..7)\nC6 ::= SEQUENCE { a INTEGER (0..255) (0..7), n IA5String (SIZE(1..64)) (SIZE(1..8)) }'),
+    ('C09-components-of-template-instance', ['Zz5'],
+     'Zed ::= BOOLEAN\nZz5 ::= SEQUENCE { z NULL, COMPONENTS OF Ainst }\nAinst ::= T5 {Zed}\nT5 {T} ::= SEQUENCE { a T }',
+     'Zed ::= BOOLEAN\nZz5 ::= SEQUENCE { z NULL, a Zed }\nAinst ::= SEQUENCE { a Zed }'),
     ('C09-non-parameter-reference-inlined', ['Inst'], 'Other ::= INTEGER (0..9)\nTpl { T } ::= SEQUENCE { first T, third Other }\nInst ::= Tpl { BOOLEAN }',
      'Other ::= INTEGER (0..9)\nInst ::= SEQUENCE { first BOOLEAN, third Other }'),
 ]
